@@ -233,7 +233,8 @@ def run(prop, tier):
                 points = sorted({b + d for b in bounds for d in (-1, 0, 1) if 0 <= b + d <= maxsize} | {0, 1, 63, 64, 65, maxsize})
                 points = points[::max(1, len(points) // 50)]
             else:
-                points = list(range(0, maxsize + 1))
+                # every byte of a small container; for larger ones every write boundary +-2 and 4000 evenly spaced offsets
+                points = sorted({b + d for b in bounds for d in (-2, -1, 0, 1, 2) if 0 <= b + d <= maxsize} | set(range(0, maxsize + 1, max(1, maxsize // 4000))) | {maxsize})
             plans = []
             for n_ in points:
                 plans.append(("fsize-kill", n_, ["prlimit", "--fsize=%d" % n_], None))
